@@ -320,3 +320,13 @@ def _pattern_ok(p, vs):
     if isinstance(p, z3.PatternRef):
         return True
     return found == ids
+
+
+def val_wf(t, bound):
+    """References embedded in a dynamic value point at allocated objects (0 < ref < allocation pointer)."""
+    V = val_sort()
+    return z3.And(
+        z3.Implies(V.is_vlist(t), z3.And(V.lr(t) > 0, V.lr(t) < bound)),
+        z3.Implies(V.is_vtuple(t), z3.And(V.tr(t) > 0, V.tr(t) < bound)),
+        z3.Implies(V.is_vdict(t), z3.And(V.dr(t) > 0, V.dr(t) < bound)),
+        z3.Implies(V.is_vobj(t), z3.And(V.o(t) > 0, V.o(t) < bound)))
